@@ -7,7 +7,9 @@ it + correspondence of the model against the REAL drivers (Generic, Network, the
 asyncio) over a causal framing device, for histories of 2-6 operations under generated chunkings.
 oracle: decided on the device's own log of what each line printed, independent of the model.  Focused in-domain
 streams (focus_scenarios): prompt-like line suffixes at the search-depth point, dialogues that repeat an expected
-response (with / without interaction_complete_patterns), two-line prompts."""
+response (with / without interaction_complete_patterns), two-line prompts, UTF-8 text whose continuation bytes 0x9b / 0x9d
+(the 8-bit CSI / OSC codes as single bytes) are followed by everything the ANSI pattern could consume, in outputs and in
+echoes, inside one read and cut by a read boundary; commands of 20 .. 1100 characters whose echo arrives in several reads."""
 import json
 import os
 import re
@@ -1034,6 +1036,146 @@ def multiline_prompt_scenario(rng, stack):
     return scn
 
 
+# UTF-8 characters whose LAST byte is 0x9b / 0x9d: ordinary continuation bytes that, as single bytes, are the 8-bit CSI /
+# OSC codes the ANSI pattern also starts at (Cyrillic El / En, s acute, U-circumflex, CJK 4F9B / 601D, two emoji ...)
+C9 = {0x9b: ["Л", "ś", "供", "Û", "\U0001f61b", "ě", "қ"],
+      0x9d: ["Н", "思", "Ý", "\U0001f61d", "ĝ", "ҝ"]}
+# everything an ANSI pattern could consume after such a byte: (kind, text that starts with it)
+CSI_FOLLOW = [("7", "7 razy"), ("8", "8 ports"), ("M", "MTU 1500"), ("E", "Ethernet1/1"), ("[..m", "[0m ok"), ("[..m", "[1;32m ok"),
+              ("[..final", "[K rest"), ("[..final", "[lab] x"), ("[..final", "[12 34 x"), ("[..final", "[?25h z"), ("[ only", "[ 12 34"),
+              ("]..BEL", "]0;title\x07 t"), ("]..BEL", "]2 a b\x07"), ("] no BEL", "]0;title t")]
+CSI_WS = ["", " ", "\t", "\n"]
+CSI_WHERE = ["cmd-out", "cmds-out", "inter-out", "cmd-echo", "cmds-echo", "inter-echo"]
+CSI_INTERIOR = [["whole"], ["bytes", 1000], ["bytes", 16], ["lines"], ["blank"], ["takes", [64, 1]]]
+CSI_STRADDLE = [["bytes", 1], ["bytes", 2], ["bytes", 3], ["takes", [1, 2, 5, 1, 9]], ["bytes", 7]]
+CSI_PAIR = re.compile(rb"[\x9b\x9d]\s?(?:[78ME\[]|\]\d)")
+
+
+def u8s(text):
+    """a str of text as the latin-1 carrier of its UTF-8 bytes (how device texts are written in a scenario)"""
+    return b2s(text.encode("utf-8"))
+
+
+def csi_phrase(rng, byte, ws, follow):
+    """some UTF-8 word ending in a character whose last byte is `byte`, then `ws`, then the follower text"""
+    word = "".join(rng.choice(["В", "А", "д", "é", "中", "x", "ü"]) for _ in range(rng.randint(0, 3)))
+    return word + rng.choice(C9[byte]) + ws + follow
+
+
+def csi_text(rng, byte, ws, follow, nlines=None):
+    """a few lines of UTF-8 text (no ESC, no CR), every line opened by two plain words (so that no line and no line prefix
+    reads as a prompt of any driver), one or two of them holding the phrase"""
+    plain = ["Vlan name default", "Port état 中文 ok", "  uplink ü 10G", "", "total 2 … done", "Имя порта да"]
+    lines = [rng.choice(plain) for _ in range(rng.randint(0, 2) if nlines is None else nlines)]
+    for _ in range(rng.choice([1, 1, 2])):
+        line = rng.choice(["Vlan name ", "Gi0/1 desc ", "  port alias "]) + csi_phrase(rng, byte, ws, follow) + rng.choice(["", " up", "  "])
+        lines.insert(rng.randint(0, len(lines)), line)
+    return "\n".join(lines)
+
+
+def csi_scenario(rng, byte, ws, follow, where, policy, stack):
+    """one history in which the phrase occurs where `where` says (a command's output, the outputs of send_commands, the texts of
+    a dialogue; the echo of a command, of one of several commands, of the first line and of an answer of a dialogue), followed by
+    a plain command that must again return exactly its own output"""
+    for attempt in range(12):
+        kind = rng.choice(KINDS)
+        prompt = rng.choice(FOCUS_PROMPTS[kind])
+        core = prompt.rstrip(" ")
+        wse = ws if ws != "\n" else rng.choice(["", " ", "\t"])       # no newline inside a command
+        text = lambda n=None: u8s(csi_text(rng, byte, ws, follow, n))   # noqa
+        typed = lambda: rng.choice(["show vlan name ", "conf desc ", "ping "]) + csi_phrase(rng, byte, wse, follow.rstrip(" "))  # noqa
+        plain_out = u8s(rng.choice(["ok", "Vlan name default\n  uplink ü 10G", ""]))
+        if where == "cmd-out":
+            ops, replies = [{"op": "cmd", "cmd": "show vlan", "strip": rng.random() < 0.7}], [{"out": text()}]
+        elif where == "cmds-out":
+            ops = [{"op": "cmds", "cmds": ["show vlan", "show  vlan brief "], "strip": rng.random() < 0.7, "eager": False}]
+            replies = [{"out": text()}, {"out": text(0)}]
+        elif where == "cmd-echo":
+            ops, replies = [{"op": "cmd", "cmd": typed(), "strip": rng.random() < 0.7}], [{"out": plain_out}]
+        elif where == "cmds-echo":
+            ops = [{"op": "cmds", "cmds": [typed(), "show x", typed()], "strip": rng.random() < 0.7, "eager": False}]
+            replies = [{"out": plain_out}, {"out": "x"}, {"out": text(0) if rng.random() < 0.5 else "y"}]
+        else:
+            q, lit = rng.choice(QUESTIONS[:2] + QUESTIONS[3:6])
+            echoed = where == "inter-echo"
+            first = typed() if echoed else "copy run start"
+            answer = csi_phrase(rng, byte, wse, follow.rstrip(" ")) if echoed else "y"
+            stage_text = (plain_out if rng.random() < 0.5 else "") if echoed else text(0)
+            final = plain_out if echoed else text()
+            ops = [{"op": "inter", "events": [[first, lit, rng.choice([False, None])], [answer, core, rng.choice([False, None])]], "complete": None}]
+            replies = [{"stages": [[stage_text, q, True]], "final": final}]
+        ops.append({"op": "cmd", "cmd": "show clock", "strip": True})
+        replies.append({"out": "Thu Oct 1 2026 12.00 UTC"})
+        scn = with_nrep({"kind": kind, "stack": stack, "prompt": prompt, "nl": rng.choice(["\r\n", "\r\n", "\n"]), "ret": rng.choice(["\n", "\n", "\r\n"]),
+                         "depth": rng.choice([1000, 1000, 1000, 200]), "policy": policy, "focus": "utf8-9b9d",
+                         "csi": ["%02x" % byte, follow.split(" ")[0][:3] if follow[0] in "[]" else follow[0], repr(ws), where],
+                         "replies": replies, "ops": ops})
+        if in_domain(scn, exact=True):
+            break
+    return scn
+
+
+def csi_family(rng, thorough):
+    """for each of the two bytes x every follower x white space in between (none, blank, tab, newline): a scenario per place, under a
+    policy that keeps the pair inside one read and under one that cuts between the two bytes"""
+    out, n = [], 0
+    sure = {}      # (byte, follower, output / echo) -> [seen under a policy that surely keeps the pair in one read, .. surely cuts it]
+    for byte in (0x9b, 0x9d):
+        for fi, (fkind, follow) in enumerate(CSI_FOLLOW):
+            for wi, ws in enumerate(CSI_WS):
+                wheres = CSI_WHERE if thorough else [CSI_WHERE[(fi + wi + k) % len(CSI_WHERE)] for k in (0, 3, 4 + (fi % 2))]
+                for where in wheres:
+                    if ws == "\n" and where.endswith("echo") and not thorough:
+                        continue
+                    for pol in (CSI_INTERIOR[n % len(CSI_INTERIOR)], CSI_STRADDLE[n % len(CSI_STRADDLE)]):
+                        out.append(csi_scenario(rng, byte, ws, follow, where, pol, ["sync", "async"][n % 2]))
+                        n += 1
+                        got = sure.setdefault((byte, follow, where.split("-")[1]), [False, False])
+                        got[0] |= pol in (["whole"], ["bytes", 1000], ["lines"])
+                        got[1] |= pol == ["bytes", 1]
+    for (byte, follow, place), got in sorted(sure.items()):
+        for pol, have in ((["whole"], got[0]), (["bytes", 1], got[1])):
+            if not have:
+                where = rng.choice([w for w in CSI_WHERE if w.endswith(place)])
+                out.append(csi_scenario(rng, byte, rng.choice(CSI_WS[:3]), follow, where, pol, ["sync", "async"][len(out) % 2]))
+    return out
+
+
+def csi_positions(scn, res):
+    """(pairs inside one read, pairs cut by a read boundary) of the 9b/9d + follower pairs in what the transport handed out"""
+    chunks = [c.replace(b"\r", b"") for c in res.get("chunks", [])]
+    inside = sum(len(CSI_PAIR.findall(c)) for c in chunks)
+    return inside, len(CSI_PAIR.findall(b"".join(chunks))) - inside
+
+
+def long_echo_family(rng, thorough):
+    """commands of 20 .. 1100 non-blank characters whose echo arrives in several reads, with read boundaries after 16, 64, 128, 256,
+    512, 1000 .. characters of the echo: the return may only be sent once the WHOLE echo was read, whatever its length"""
+    out = []
+    lens = [20, 65, 100, 127, 129, 140, 200, 257, 300, 513, 1030]
+    for i, n in enumerate(lens if thorough else lens[::2] + [129, 257]):
+        for j in range(3 if thorough else 2):
+            kind = rng.choice(KINDS)
+            prompt = rng.choice(FOCUS_PROMPTS[kind])
+            words, total = [], 0
+            while total < n:
+                w = "".join(rng.choice(LOWER + "0123456789|()/-.") for _ in range(min(n - total, rng.randint(1, 24))))
+                words.append(w)
+                total += len(w)
+            cmd = "show log | include " + rng.choice([" ", "  "]).join(words)
+            nb = len("".join(cmd.split()))
+            pol = [["bytes", 1], ["bytes", 7], ["takes", [nb - rng.randint(1, min(nb - 1, 90)), 1, 3]], ["bytes", rng.choice([16, 64, 128, 130])],
+                   ["tail", 3]][(i + j) % 5]
+            ops = [{"op": "cmd", "cmd": cmd, "strip": rng.random() < 0.7}, {"op": "cmd", "cmd": "show clock", "strip": True}]
+            if j == 1:
+                ops[0] = {"op": "cmds", "cmds": ["show x", cmd], "strip": rng.random() < 0.7, "eager": False}
+            replies = ([{"out": "x"}] if j == 1 else []) + [{"out": b2s(gen_output(rng, rng.randint(0, 60)))}, {"out": "Thu Oct 1 2026 12.00 UTC"}]
+            out.append(with_nrep({"kind": kind, "stack": ["sync", "async"][(i + j) % 2], "prompt": prompt, "nl": rng.choice(["\r\n", "\r\n", "\n"]),
+                                  "ret": rng.choice(["\n", "\n", "\r\n"]), "depth": 1000, "policy": pol, "focus": "long-echo",
+                                  "replies": replies, "ops": ops}))
+    return out
+
+
 def focus_scenarios(rng, thorough):
     """(scenario, to the model too?) - every scenario runs on the real driver under the oracle; a sample whose estimated
     evaluation cost is small is also evaluated by the model (the members of a family differ in a few bytes only)"""
@@ -1063,6 +1205,10 @@ def focus_scenarios(rng, thorough):
     for n in range(120 if thorough else 30):
         scn = multiline_prompt_scenario(rng, stacks[n % 2])
         out.append((scn, n % 4 == 0 and cheap(scn)))
+    for n, scn in enumerate(csi_family(rng, thorough)):
+        out.append((scn, n % (41 if thorough else 53) == 0 and cheap(scn, 4000.0)))
+    for n, scn in enumerate(long_echo_family(rng, thorough)):
+        out.append((scn, n % 7 == 0 and cheap(scn, 6000.0)))
     return out
 
 
@@ -1254,6 +1400,16 @@ def run(rep):
             fk["scenarios"] += 1
             fk["in_domain"] += bool(dom)
             fk["through_model"] += stream == "focus"
+            if scn.get("focus") == "utf8-9b9d" and dom:
+                ins, cut = csi_positions(scn, res)
+                cs = dist.setdefault("utf8_9b9d", {"pairs_inside_one_read": 0, "pairs_cut_by_a_read_boundary": 0, "by_byte_follower_place": {}})
+                cs["pairs_inside_one_read"] += ins
+                cs["pairs_cut_by_a_read_boundary"] += cut
+                b_, f_, w_, pl_ = scn["csi"]
+                key = "%s %s %s" % (b_, f_, pl_.split("-")[1])
+                c2 = cs["by_byte_follower_place"].setdefault(key, [0, 0])
+                c2[0] += ins > 0
+                c2[1] += cut > 0
         if stream in ("gen", "corpus") and not dom:
             # a random text can by chance contain an awaited literal: model-vs-implementation only; more than a few => generator defect
             dist["gen_outside_domain"] = dist.get("gen_outside_domain", 0) + 1
@@ -1311,7 +1467,13 @@ def run(rep):
     for fkind, fk in sorted(dist["focus"].items()):
         if fk["in_domain"] * 10 < fk["scenarios"] * 6:
             rep.broken.append("harness: focused stream %s: only %d of %d scenarios inside the domain" % (fkind, fk["in_domain"], fk["scenarios"]))
-    # 5. known findings: replayed on the real code; reported while they still fail that way
+    # the 9b/9d family is only worth its name if every (byte, follower, output / echo) class was seen, inside the domain, with the
+    # pair in one read and with a read boundary between the two bytes
+    cs = dist.get("utf8_9b9d", {}).get("by_byte_follower_place", {})
+    want_keys = {"%02x %s %s" % (b_, (f.split(" ")[0][:3] if f[0] in "[]" else f[0]), pl) for b_ in C9 for _, f in CSI_FOLLOW for pl in ("out", "echo")}
+    thin = sorted(k for k in want_keys if min(cs.get(k, [0, 0])) == 0)
+    if thin:
+        rep.broken.append("harness: utf8-9b9d stream: %d classes not seen both inside one read and cut by a read boundary (first: %s)" % (len(thin), thin[0]))
     for sig, fscn in FINDING_SCENARIOS.items():
         try:
             fs = with_nrep(flat(fscn))
@@ -1346,7 +1508,15 @@ def run(rep):
                 "of an expected response re-appears as ordinary output while another event is awaited (same question twice, the docstring example of "
                 "send_inputs_interact), 1/2/3/7/64-byte, line-wise and whole reads, followed by a command; complete-dialogue = the same with "
                 "interaction_complete_patterns (literal or ^..$) and a device that asks fewer questions than the caller lists events; multiline-prompt = "
-                "two-line Junos prompts ({master:0} banner line); observer: what was unread at every transport write (each answer is typed only after its "
+                "two-line Junos prompts ({master:0} banner line); utf8-9b9d = UTF-8 text without any ESC in which a character whose last byte is "
+                "0x9b or 0x9d (Cyrillic El/En, s-acute, U-circumflex, CJK 4F9B/601D, emoji) is followed - directly, after a blank, a tab, a newline - by each "
+                "thing the ANSI pattern could consume after its 8-bit CSI/OSC start bytes (7 8 M E, '[' + parameters + final byte, '[..m', ']' digit text "
+                "BEL, and the non-sequences '[ ' / ']' without BEL), placed in the output of send_command, in the outputs of send_commands, in the texts "
+                "and the final output of a send_interactive dialogue, and in the ECHO of a command, of commands of send_commands, of the first line and of "
+                "an echoed answer of a dialogue; each under a policy that keeps the pair inside one read (whole, 16/1000 bytes, line-wise ...) and one that "
+                "cuts between the two bytes (1/2/3/7 bytes, take lists), each followed by a plain command (every class must be seen in both positions, "
+                "counted from the chunks the transport handed out); long-echo = commands of 20 .. 1100 non-blank characters read back in 1/7/16/64/128/130-"
+                "byte reads, all-but-the-last-3-bytes and a cut 1..90 characters before the end of the echo, alone and as second command of send_commands; observer: what was unread at every transport write (each answer is typed only after its "
                 "question was read); "
                 "non-trivial = in-domain operation of a history with >= 2 operations; distinct = (driver, stack, operation, chunk policy)")
     # 7. verdicts
@@ -1441,7 +1611,7 @@ def replay(path):
 
 MANIFEST = {
     "category": "proof",
-    "text": "Coq theorem C01_history (props/C01.v, over coq/model/Channel.v; 17 property theorems, all 'Closed under the global context', and 2 Examples): for EVERY "
+    "text": "Coq theorem C01_history (props/C01.v, over coq/model/Channel.v; 20 property theorems, all 'Closed under the global context', and 3 Examples): for EVERY "
             "finite sequence of send_command / send_commands / send_interactive / get_prompt on one connection, EVERY chunker (any function of read index, "
             "bytes delivered and pending bytes), EVERY search depth greater than the prompt, return char \\n or \\r\\n, device line end, strip_prompt on/off, "
             "EVERY reply function of the device and EVERY output satisfying the property's side condition (no CR/ESC; no proper prefix of what is printed up to the "
@@ -1458,7 +1628,7 @@ MANIFEST = {
             "on the real drivers: known findings C01-prompt-blank-residue, C01-echo-trailing-blank) and proved where it holds (C01_history_exact_partial: prompt "
             "without trailing blank, commands without trailing white space). Tie: Gen_Channel.v (depth, return char, the prompt pattern of a constructed driver of every kind, "
             "ANSI patterns, the shape of the escape-sequence carry-over, and the behaviour of the REAL _process_read_buf / _process_output / _get_prompt_pattern on ~125 probe "
-            "inputs (one output longer than the search depth whose search-depth point lies inside a prompt-like word), compiled as obligations C01_generated_* against the model's prb / process_output) regenerated and recompiled on every run; "
+            "inputs (one output longer than the search depth whose search-depth point lies inside a prompt-like word) and of the REAL read() of both stacks on ~115 (carry-over, chunk) probes, compiled as obligations C01_generated_* against the model's prb / process_output / ch_read) regenerated and recompiled on every run; "
             "the model is executed by vm_compute on the same histories as the real drivers (sync and asyncio, 7 kinds) over a causal framing device and must agree "
             "on every raw/processed result, get_prompt value, bytes written, device log, unread residue; an independent oracle decides the property on the "
             "device's own log; both regex engines are confronted with CPython's re on every pattern of the tree. Focused in-domain streams run on the real "
@@ -1467,7 +1637,15 @@ MANIFEST = {
             "received', which is what Coq's quiet states through the window: a line SUFFIX is never a prompt candidate, so such outputs are inside the domain); "
             "multi-event send_interactive dialogues in which the text of an expected response re-appears while another event is awaited, with and without "
             "interaction_complete_patterns and with devices that ask fewer questions than the caller lists events (the device must receive exactly the lines it "
-            "asked for, every answer is typed only after its question was read, the next command returns its own output); two-line Junos prompts.",
+            "asked for, every answer is typed only after its question was read, the next command returns its own output); two-line Junos prompts; "
+            "UTF-8 outputs and command echoes without any ESC whose continuation bytes 0x9b / 0x9d (the 8-bit CSI / OSC codes the ANSI pattern also "
+            "starts at) are followed by every kind of text that pattern could consume (7 8 M E, '[' parameters final byte, ']' digit text BEL; directly or "
+            "after a blank / tab / newline), in send_command / send_commands / send_interactive outputs and in echoes, with the pair inside one read and "
+            "cut by a read boundary (result = the normalised device record, decoded as UTF-8); commands of up to 1100 characters whose echo arrives in "
+            "several reads. read() itself is tied: C01_read_without_esc_verbatim (a read without ESC hands the transport's bytes on verbatim for EVERY "
+            "stripping function - the guard of read() is part of the model, and the history theorem rests on it) and the obligation C01_generated_read "
+            "over ~115 probes of the REAL Channel.read / AsyncChannel.read (carry-over in, one transport chunk -> bytes returned, carry-over out; half of "
+            "them ESC-free chunks with 0x9b / 0x9d + every follower; C01_generated_read_guard_exercised: the tree's ANSI pattern would change some of them).",
     "note": "Proved on the model; the tie of the model to the code is the correspondence run (sampled). Section hypotheses of the general theorem (each discharged "
             "for the concrete engine by prompt_okb): M1 white space alone is never read as a prompt; M2 the prompt on the last line is found whatever complete "
             "lines precede it; M3 get_prompt's whole-buffer search matches nothing before the complete prompt and then matches the prompt. Side conditions of the "
@@ -1479,7 +1657,10 @@ MANIFEST = {
             "end of an event's text, an early return to the prompt is 'complete' and not 'expected') and prompts of two lines (C01_history assumes a one-line "
             "prompt; the model and the oracle take the prompt as given). Oracle-only: the per-write observation (nothing but a question's trailing blank is "
             "unread when its answer is typed) - the model's observation record has no per-write field. Strict input mode only; ANSI stripping, rough mode and chunk-independence of decorated streams are C02's (the model "
-            "carries the escape-sequence carry-over of read() in both shapes of the tree, exercised model-vs-implementation only). failed flags are C13's. "
+            "carries the escape-sequence carry-over of read() in both shapes of the tree, exercised model-vs-implementation only: edge stream 'esc' and the "
+            "ESC-carrying half of the read() probes; inside C01's domain - no ESC - the model's read is the identity minus CR, which the utf8-9b9d stream "
+            "checks on the real code under the oracle, a sample through the model). The long-echo stream is mostly oracle-only (a sample through the model). "
+            "failed flags are C13's. "
             "Partial: exactness of raw_result / 'nothing unread' only up to the trailing blank of a prompt and the trailing white space of a command (two known, "
             "benign findings). Trusted: Coq kernel + vm_compute, gen/gen_channel.py + gen/regex.py, the framing device and scripted transports, CPython re "
             "conformance by sampling.",
